@@ -73,7 +73,7 @@ func putHdrs(i int) []s3c.KV {
 // ---- case ---------------------------------------------------------------------------
 
 type op struct {
-	Kind string `json:"kind"` // put | mpu | copy | delete | get | head
+	Kind string `json:"kind"` // put | mpu | copy | delete | get | getsum | head | putparent | copyout (the key read by a CopyObject to a key of the operation's own)
 	W    int    `json:"w,omitempty"`
 	Proc int    `json:"proc,omitempty"`
 }
@@ -394,12 +394,25 @@ func execA(c caseA) (hist []histOp, overlap bool, err error) {
 			r, err = cl.Call("GET", path, nil, []s3c.KV{{K: "x-amz-checksum-mode", V: "ENABLED"}}, nil)
 		case "head":
 			r, err = cl.Call("HEAD", path, nil, nil, nil)
+		case "copyout":
+			// a server-side copy reads the key like a GET does: what arrives at the destination (a key nobody else
+			// touches, read when the copy has answered) is what the copy read - body, ETag and metadata of one write
+			dst := fmt.Sprintf("/%s/out-%d", bkt, i)
+			r, err = cl.Call("PUT", dst, nil, []s3c.KV{{K: "x-amz-copy-source", V: bkt + "/" + key}}, nil)
+			if err == nil && r.Status == 200 && !strings.Contains(string(r.Body), "<Error>") {
+				r, err = cl.Call("GET", dst, nil, nil, nil)
+				if err == nil && r.Status != 200 {
+					return ret{out: outcome{Status: 200, Torn: fmt.Sprintf("the copy answered 200, its destination reads %d %s", r.Status, r.Code())}}
+				}
+			} else if err == nil && r.Status == 200 {
+				r.Status = 500
+			}
 		}
 		if err != nil {
 			return ret{err: err}
 		}
 		switch o.Kind {
-		case "get", "getsum":
+		case "get", "getsum", "copyout":
 			return ret{out: attribute(r, false)}
 		case "head":
 			return ret{out: attribute(r, true)}
@@ -475,7 +488,7 @@ func caseGen() *rapid.Generator[caseA] {
 		readers := 0
 		for i := 0; i < n; i++ {
 			var o op
-			o.Kind = rapid.SampledFrom([]string{"put", "put", "mpu", "copy", "delete", "get", "getsum", "getsum", "head", "put", "put", "mpu", "copy", "delete", "get", "getsum", "getsum", "head", "putparent"}).Draw(t, "kind")
+			o.Kind = rapid.SampledFrom([]string{"put", "put", "mpu", "copy", "delete", "get", "getsum", "getsum", "head", "put", "put", "mpu", "copy", "delete", "get", "getsum", "getsum", "head", "putparent", "copyout", "copyout"}).Draw(t, "kind")
 			if i == n-1 && readers == 0 {
 				o.Kind = rapid.SampledFrom([]string{"getsum", "getsum", "get", "head"}).Draw(t, "reader")
 			}
@@ -487,7 +500,7 @@ func caseGen() *rapid.Generator[caseA] {
 					o.W, avail = avail[0], avail[1:]
 				}
 			}
-			if o.Kind == "get" || o.Kind == "getsum" || o.Kind == "head" {
+			if o.Kind == "get" || o.Kind == "getsum" || o.Kind == "head" || o.Kind == "copyout" {
 				readers++
 			}
 			o.Proc = rapid.IntRange(0, c.Procs-1).Draw(t, "proc")
@@ -512,7 +525,7 @@ func caseGen() *rapid.Generator[caseA] {
 			i := rapid.IntRange(0, n-1).Draw(t, "stall_op")
 			if rapid.Bool().Draw(t, "stall_a_reader") {
 				for j, o := range c.Ops {
-					if (o.Kind == "get" || o.Kind == "getsum" || o.Kind == "head") && rapid.Bool().Draw(t, "stall_reader") {
+					if (o.Kind == "get" || o.Kind == "getsum" || o.Kind == "head" || o.Kind == "copyout") && rapid.Bool().Draw(t, "stall_reader") {
 						i = j
 						break
 					}
